@@ -24,6 +24,7 @@ var c03Tags = []string{
 	"Z" + strings.Repeat("9", 127),
 }
 var c03Repos = []string{"r1", "r2/n"}
+var c03RepoDraw = []string{"r1", "r1", "r1", "r2/n"} // most traffic on one repository so that listings get long
 
 type c03State struct {
 	*env
@@ -165,7 +166,28 @@ func c03Property(t *rapid.T, st *Stats) {
 	}()
 	t.Repeat(e.actions(map[string]func(*rapid.T){
 		"pushTag": func(t *rapid.T) {
-			rn := rapid.SampledFrom(c03Repos).Draw(t, "repo")
+			rn := rapid.SampledFrom(c03RepoDraw).Draw(t, "repo")
+			p := s.manifests(rn)[rapid.IntRange(0, 5).Draw(t, "manifest")]
+			p.tag = rapid.SampledFrom(c03Tags).Draw(t, "tag")
+			p.ref = p.tag
+			mr := e.repo(rn)
+			r := e.putManifest(p, nil)
+			e.logf("pushTag %s %s -> %s : %d", rn, shortTag(p.tag), short(p.digest), r.code)
+			if r.panicV != nil || r.code != 201 {
+				s.fail("push-tag-refused", "valid tag push %s answered %d %v", shortTag(p.tag), r.code, r.panicV)
+			}
+			if old, ok := mr.tags[p.tag]; ok && old != p.digest {
+				e.class("overwrite")
+			}
+			for tg, d := range mr.tags {
+				if d == p.digest && tg != p.tag {
+					e.class("multi-tag")
+				}
+			}
+			e.acceptManifest(p)
+		},
+		"pushTagAgain": func(t *rapid.T) {
+			rn := rapid.SampledFrom(c03RepoDraw).Draw(t, "repo")
 			p := s.manifests(rn)[rapid.IntRange(0, 5).Draw(t, "manifest")]
 			p.tag = rapid.SampledFrom(c03Tags).Draw(t, "tag")
 			p.ref = p.tag
@@ -186,7 +208,7 @@ func c03Property(t *rapid.T, st *Stats) {
 			e.acceptManifest(p)
 		},
 		"pushDigest": func(t *rapid.T) {
-			rn := rapid.SampledFrom(c03Repos).Draw(t, "repo")
+			rn := rapid.SampledFrom(c03RepoDraw).Draw(t, "repo")
 			p := s.manifests(rn)[rapid.IntRange(0, 5).Draw(t, "manifest")]
 			p.ref = p.digest
 			r := e.putManifest(p, nil)
@@ -197,7 +219,7 @@ func c03Property(t *rapid.T, st *Stats) {
 			e.acceptManifest(p)
 		},
 		"deleteTag": func(t *rapid.T) {
-			rn := rapid.SampledFrom(c03Repos).Draw(t, "repo")
+			rn := rapid.SampledFrom(c03RepoDraw).Draw(t, "repo")
 			mr := e.repo(rn)
 			tg := rapid.SampledFrom(c03Tags).Draw(t, "tag")
 			if len(mr.tags) > 0 && rapid.Bool().Draw(t, "existing") {
@@ -219,7 +241,7 @@ func c03Property(t *rapid.T, st *Stats) {
 			}
 		},
 		"deleteDigest": func(t *rapid.T) {
-			rn := rapid.SampledFrom(c03Repos).Draw(t, "repo")
+			rn := rapid.SampledFrom(c03RepoDraw).Draw(t, "repo")
 			mr := e.repo(rn)
 			p := s.manifests(rn)[rapid.IntRange(0, 5).Draw(t, "manifest")]
 			r := e.do("DELETE", "/v2/"+rn+"/manifests/"+p.digest, nil, nil)
@@ -255,7 +277,7 @@ func c03Property(t *rapid.T, st *Stats) {
 			e.class("restart")
 		},
 		"list": func(t *rapid.T) {
-			rn := rapid.SampledFrom(c03Repos).Draw(t, "repo")
+			rn := rapid.SampledFrom(c03RepoDraw).Draw(t, "repo")
 			_ = s.manifests(rn)
 			all := s.wantTags(rn)
 			q := url.Values{}
@@ -263,7 +285,7 @@ func c03Property(t *rapid.T, st *Stats) {
 			n := 0
 			switch nKind {
 			case "pos":
-				n = rapid.IntRange(1, len(all)+2).Draw(t, "n")
+				n = rapid.SampledFrom([]int{1, 1, 2, 3, max(1, len(all)/2), max(1, len(all)-1), len(all) + 1, len(all) + 2}).Draw(t, "n")
 				q.Set("n", fmt.Sprint(n))
 			case "zero":
 				q.Set("n", "0")
